@@ -10,10 +10,10 @@
 //!   5  ((Sk Sv)..)                serde_html_form::to_string then from_str -> ( 0 ( Sqs ((Sk Sv)..) ) )
 //!   6  Squery                     serde_html_form::from_str::<Vec<(String,String)>> -> ( 0 ((Sk Sv)..) )
 //!   7  Nscheme Nvariant Stoken    Metadata::authorization_header -> ( 0 (Sval)? ) | ( 1 code )
-//!   8  Sorigin (Sdest)? Skey Ssig XMatrix Display, then parse -> ( 0 ( Sheader parse-outcome ) )
+//!   8  Sorigin (Sdest)? Skey Ssig oracle   XMatrix Display, then parse -> ( 0 ( Sheader parse-outcome ) )
 //!   9  Sheader ((Sval Nsn Nkey (Sbytes)?)..)   XMatrix::parse -> ( 0 ( So (Sd)? Sk Ssig ) ) | ( 1 code )
 //!  10  Sheader                    http_auth::ChallengeParser -> ( 0 ( ((Sscheme ((Sk Sv)..))..) Nerr ) )
-//!  11  Sendpoint Ndir (Sval..) hist (Nv..) Nscheme Nvariant Stoken
+//!  11  Sendpoint Ndir ((Sval Nkind)..) hist (Nv..) Nscheme Nvariant Stoken
 //!                                 request / response through the generated conversions and back
 //!  12  hist                       VersionHistory::new -> ( 0 N1 ) | ( 2 )
 use std::fmt::Debug;
@@ -371,7 +371,7 @@ fn xparse(s: &str) -> Sx {
     }
 }
 
-fn op8(origin: &str, dest: Option<&str>, key: &str, sig: &[u8]) -> Option<Sx> {
+fn op8(origin: &str, dest: Option<&str>, key: &str, sig: &[u8]) -> Option<(Sx, Sx)> {
     let origin: OwnedServerName = origin.try_into().ok()?;
     let dest: Option<OwnedServerName> = match dest {
         None => None,
@@ -379,12 +379,13 @@ fn op8(origin: &str, dest: Option<&str>, key: &str, sig: &[u8]) -> Option<Sx> {
     };
     let key: OwnedServerSigningKeyId = key.try_into().ok()?;
     let sig = sig.to_vec();
-    Some(guarded(move || {
+    let r = std::panic::catch_unwind(move || {
         let mut x = XMatrix::new(origin.clone(), origin, key, Base64::new(sig));
         x.destination = dest;
         let s = x.to_string();
-        Sx::ok(Sx::L(vec![Sx::s(&s), xparse(&s)]))
-    }))
+        (Sx::ok(Sx::L(vec![Sx::s(&s), xparse(&s)])), xm_oracle(&s))
+    });
+    Some(r.unwrap_or_else(|_| (Sx::panic(), Sx::L(vec![]))))
 }
 
 /// What the real validators say about the parameter values of the X-Matrix challenge of `s`.
@@ -511,11 +512,23 @@ where
         ]))
     };
     let Some(args) = args else { return head(&[], false, false) };
+    let debug = std::env::var_os("C16_DEBUG").is_some();
+    if debug {
+        eprintln!("request  : {dbg1}\nhttp     : {sig1:?}\nargs     : {args:?}");
+    }
     let req2 = match R::try_from_http_request(h1, &args) {
         Ok(r) => r,
-        Err(_) => return head(&args, false, false),
+        Err(e) => {
+            if debug {
+                eprintln!("decode error: {e}");
+            }
+            return head(&args, false, false);
+        }
     };
     let dbg2 = format!("{req2:?}");
+    if debug {
+        eprintln!("decoded  : {dbg2}");
+    }
     let re = match req2.try_into_http_request::<Vec<u8>>(BASE, sat(cx.variant, cx.token), &vs) {
         Ok(h2) => http_req_sig(&h2) == sig1,
         Err(_) => false,
@@ -534,11 +547,23 @@ where
         Err(e) => return Sx::err(into_err_code(&e)),
     };
     let sig1 = http_resp_sig(&h1);
+    let debug = std::env::var_os("C16_DEBUG").is_some();
+    if debug {
+        eprintln!("response : {dbg1}\nhttp     : {sig1:?}");
+    }
     let resp2 = match R::try_from_http_response(h1) {
         Ok(r) => r,
-        Err(_) => return Sx::ok(Sx::L(vec![Sx::b(false), Sx::b(false)])),
+        Err(e) => {
+            if debug {
+                eprintln!("decode error: {e}");
+            }
+            return Sx::ok(Sx::L(vec![Sx::b(false), Sx::b(false)]));
+        }
     };
     let dbg2 = format!("{resp2:?}");
+    if debug {
+        eprintln!("decoded  : {dbg2}");
+    }
     let re = match resp2.try_into_http_response::<Vec<u8>>() {
         Ok(h2) => http_resp_sig(&h2) == sig1,
         Err(_) => false,
@@ -583,13 +608,32 @@ fn op11(eps: &[Ep], all: &[MatrixVersion], name: &str, dir: usize, vals: &[Strin
     }
 }
 
+/// What kind of field the i-th string value of an endpoint feeds, where that matters for the
+/// known findings: 2 = optional query field, 3 = header field, 6 = optional Content-Type header
+/// of a response; 0 = anything else (path, required query, body, ...).
+fn field_kind(name: &str, dir: usize, i: usize) -> i64 {
+    match (name, dir, i) {
+        ("synthetic::all", 0, 3) | ("synthetic::get", 0, 1) => 2,
+        ("synthetic::all", 0, 5 | 6) | ("synthetic::all", 1, 0 | 1) => 3,
+        ("synthetic::raw", 0, 3) | ("synthetic::raw", 1, 0 | 1) => 3,
+        ("client::user_directory::search_users", 0, 1) => 3,
+        ("client::media::get_content", 1, 1) => 6,
+        ("client::message::get_message_events", 0, 1 | 2) => 2,
+        ("client::relations::get_relating_events", 0, 2 | 3) => 2,
+        ("client::space::get_hierarchy", 0, 1) | ("client::threads::get_threads", 0, 1) => 2,
+        ("client::directory::get_public_rooms", 0, 0) | ("federation::directory::get_public_rooms", 0, 0) => 2,
+        ("client::search::search_events", 0, 1) => 2,
+        _ => 0,
+    }
+}
+
 fn case11(ep: &Ep, all: &[MatrixVersion], dir: usize, vals: &[String], vs: &[usize], variant: usize, token: &str) -> Sx {
     let meta = (ep.meta)();
     Sx::L(vec![
         Sx::n(11),
         Sx::s(ep.name),
         Sx::n(dir as i64),
-        Sx::L(vals.iter().map(|v| Sx::s(v)).collect()),
+        Sx::L(vals.iter().enumerate().map(|(i, v)| Sx::L(vec![Sx::s(v), Sx::n(field_kind(ep.name, dir, i))])).collect()),
         Hist::of(all, &meta.history).sx(),
         Sx::L(vs.iter().map(|v| Sx::n(*v as i64)).collect()),
         Sx::n(scheme_idx(meta.authentication) as i64),
@@ -698,7 +742,7 @@ pub fn replay(case: &Sx) -> Option<Sx> {
                 None => None,
                 Some(d) => Some(d.as_string()?),
             };
-            op8(&l.get(1)?.as_string()?, d.as_deref(), &l.get(3)?.as_string()?, l.get(4)?.as_bytes()?)
+            op8(&l.get(1)?.as_string()?, d.as_deref(), &l.get(3)?.as_string()?, l.get(4)?.as_bytes()?).map(|(out, _)| out)
         }
         9 => Some(op9(&l.get(1)?.as_string()?)),
         10 => Some(op10(&l.get(1)?.as_string()?)),
@@ -712,7 +756,7 @@ pub fn replay(case: &Sx) -> Option<Sx> {
                 &all,
                 &l.get(1)?.as_string()?,
                 usize::try_from(l.get(2)?.as_int()?).ok()?,
-                &strs(l.get(3)?)?,
+                &l.get(3)?.as_list()?.iter().map(|p| p.as_list()?.first()?.as_string()).collect::<Option<Vec<_>>>()?,
                 &vs,
                 usize::try_from(l.get(7)?.as_int()?).ok()?,
                 &l.get(8)?.as_string()?,
@@ -948,10 +992,9 @@ pub fn run(tier: &str, seed: u64, em: &mut Emitter) {
     let mut heavy_it = heavy.into_iter();
     let mut emit_heavy = |em: &mut Emitter, k: usize| {
         for _ in 0..k {
-            if let Some((h, c)) = heavy_it.next() {
-                let case = Sx::L(vec![Sx::n(1), h.sx(), Sx::n(n as i64), Sx::n(c as i64)]);
-                em.emit("systematic-select", case, op1(&all, &h, c));
-            }
+            let Some((h, c)) = heavy_it.next() else { break };
+            let case = Sx::L(vec![Sx::n(1), h.sx(), Sx::n(n as i64), Sx::n(c as i64)]);
+            em.emit("systematic-select", case, op1(&all, &h, c));
         }
     };
     hists.extend(synth.iter().cloned());
@@ -1063,8 +1106,8 @@ pub fn run(tier: &str, seed: u64, em: &mut Emitter) {
         for k in KEY_IDS {
             for (i, sg) in sigs.iter().enumerate() {
                 let d = if i % 2 == 0 { Some(SERVER_NAMES[(i + 1) % SERVER_NAMES.len()]) } else { None };
-                if let Some(out) = op8(o, d, k, sg) {
-                    let case = Sx::L(vec![Sx::n(8), Sx::s(o), Sx::opt(d.map(Sx::s)), Sx::s(k), Sx::S(sg.clone())]);
+                if let Some((out, oracle)) = op8(o, d, k, sg) {
+                    let case = Sx::L(vec![Sx::n(8), Sx::s(o), Sx::opt(d.map(Sx::s)), Sx::s(k), Sx::S(sg.clone()), oracle]);
                     em.emit("systematic-xmatrix", case, out);
                 }
             }
@@ -1074,8 +1117,8 @@ pub fn run(tier: &str, seed: u64, em: &mut Emitter) {
         let sg: Vec<u8> = (0..r.below(40)).map(|_| r.next() as u8).collect();
         let (o, k) = (*r.pick(SERVER_NAMES), *r.pick(KEY_IDS));
         let d = if r.chance(1, 2) { Some(*r.pick(SERVER_NAMES)) } else { None };
-        if let Some(out) = op8(o, d, k, &sg) {
-            let case = Sx::L(vec![Sx::n(8), Sx::s(o), Sx::opt(d.map(Sx::s)), Sx::s(k), Sx::S(sg)]);
+        if let Some((out, oracle)) = op8(o, d, k, &sg) {
+            let case = Sx::L(vec![Sx::n(8), Sx::s(o), Sx::opt(d.map(Sx::s)), Sx::s(k), Sx::S(sg), oracle]);
             em.emit("random-xmatrix", case, out);
         }
     }
@@ -1088,7 +1131,9 @@ pub fn run(tier: &str, seed: u64, em: &mut Emitter) {
     emit_heavy(em, 600);
 
     // ---- generated conversions: synthetic endpoints (every field kind) and real endpoints -------
-    let short = hostile_strings(1);
+    let mut short = hostile_strings(1);
+    short.push("-".to_owned()); // absent optional field
+    short.push("a,,b".to_owned()); // list field with an empty element
     for ep in &table {
         let meta = (ep.meta)();
         let h = Hist::of(&all, &meta.history);
@@ -1109,8 +1154,9 @@ pub fn run(tier: &str, seed: u64, em: &mut Emitter) {
             (false, false) => 25,
         };
         for _ in 0..nrand {
-            value_sets.push((0..ep.nvals).map(|_| rand_hostile(&mut r, 4)).collect());
+            value_sets.push((0..ep.nvals).map(|_| if r.chance(1, 6) { "-".to_owned() } else { rand_hostile(&mut r, 4) }).collect());
         }
+        value_sets.push((0..ep.nvals).map(|_| "-".to_owned()).collect());
         if ep.nvals == 0 {
             value_sets.push(vec![]);
         }
